@@ -4,6 +4,7 @@ import (
 	"encoding/json"
 	"flag"
 	"fmt"
+	"go/constant"
 	"go/types"
 	"golang.org/x/tools/go/ssa"
 	"os"
@@ -122,6 +123,8 @@ func main() {
 		cmdSSA(os.Args[2:])
 	case "sweep":
 		os.Exit(cmdSweep(os.Args[2:]))
+	case "sqlinv":
+		os.Exit(cmdSQLInv(os.Args[2:]))
 	default:
 		fmt.Fprintln(os.Stderr, "unknown command")
 		os.Exit(2)
@@ -721,5 +724,87 @@ func cmdSweep(args []string) int {
 		}
 	}
 	fmt.Printf("sweep: %d functions, %d safety conditions, %d not discharged without preconditions, %d functions outside the subset\n", len(fns), total, kept, errs)
+	return 0
+}
+
+// cmdSQLInv: inventory of the SQL statements in the module's source: every function (closures included) that holds a
+// string constant shaped like a data statement, and whether a contract pins that text. A search aid for assumption A5.
+func cmdSQLInv(args []string) int {
+	fs := flag.NewFlagSet("sqlinv", flag.ExitOnError)
+	repo := fs.String("repo", "/repo", "repository")
+	verif := fs.String("verif", "/verif", "verif dir")
+	fs.Parse(args)
+	P, err := LoadProgram(*repo, []string{"./..."}, filepath.Join(*verif, "contracts"))
+	if err != nil {
+		fmt.Printf("sqlinv: load failed: %v\n", err)
+		return 2
+	}
+	var lines []string
+	seen := map[*ssa.Function]bool{}
+	var visit func(top, f *ssa.Function)
+	visit = func(top, f *ssa.Function) {
+		if seen[f] || f.Blocks == nil {
+			return
+		}
+		seen[f] = true
+		if P.Fset != nil && strings.HasSuffix(P.Fset.Position(f.Pos()).Filename, "_test.go") {
+			return
+		}
+		var stmts []string
+		for _, b := range f.Blocks {
+			for _, in := range b.Instrs {
+				for _, op := range in.Operands(nil) {
+					if k, ok := (*op).(*ssa.Const); ok && k.Value != nil && k.Value.Kind() == constant.String {
+						if t := constant.StringVal(k.Value); looksLikeSQL(t) {
+							stmts = append(stmts, normSQL(t))
+						}
+					}
+				}
+			}
+		}
+		if len(stmts) > 0 {
+			key := top.Pkg.Pkg.Path() + "." + top.RelString(top.Pkg.Pkg)
+			c := P.CS.Funcs[key]
+			for _, t := range stmts {
+				st := "UNPINNED"
+				if c != nil {
+					st = "contract-without-pin"
+					for _, pt := range c.SQLTexts {
+						if normSQL(pt) == t {
+							st = "pinned"
+						}
+					}
+				}
+				lines = append(lines, fmt.Sprintf("%-22s %s :: %s", st, key, t))
+			}
+		}
+		for _, a := range f.AnonFuncs {
+			visit(top, a)
+		}
+	}
+	for _, pk := range P.SSA.AllPackages() {
+		if pk.Pkg == nil || !strings.HasPrefix(pk.Pkg.Path(), "github.com/agglayer/aggkit") || strings.Contains(pk.Pkg.Path(), "/mocks") {
+			continue
+		}
+		for _, m := range pk.Members {
+			if f, ok := m.(*ssa.Function); ok && f.Synthetic == "" {
+				visit(f, f)
+			}
+			if t, ok := m.(*ssa.Type); ok {
+				for _, recv := range []types.Type{t.Type(), types.NewPointer(t.Type())} {
+					ms := P.SSA.MethodSets.MethodSet(recv)
+					for i := 0; i < ms.Len(); i++ {
+						if f := P.SSA.MethodValue(ms.At(i)); f != nil && f.Synthetic == "" && f.Pkg == pk {
+							visit(f, f)
+						}
+					}
+				}
+			}
+		}
+	}
+	sort.Strings(lines)
+	for _, l := range lines {
+		fmt.Println(l)
+	}
 	return 0
 }
